@@ -111,4 +111,14 @@ PROPS = {
             {"pkg": ".", "moddir": "harness-nodot", "harness": "Harness_register", "params": {"quick": {}, "thorough": {}}},
         ],
     },
+    "C15": {
+        "technique": "bounded symbolic execution of AddPreamble, READWithPreamble (line splitting, regexp model), reader.Read_str/read_placeholder and printer.Pr_str on symbolic placeholder values (strings built from units that look like code, comments, preamble lines, JSON, other placeholders) in eight source templates, symbolic map order; both transports compared with the template's AST; SMT (z3) decides assertions",
+        "outside": "placeholder names beyond the three used; values deeper than the bound; symbols whose name starts with $ (not producible by READ); source texts other than the eight templates",
+        "runs": [
+            {"pkg": "./c15", "harness": "Harness_transport", "maporder": True,
+             "params": {"quick": {"depth": 0, "strlen": 1}, "thorough": {"depth": 1, "strlen": 2}}, "wall": {"thorough": "40m"}},
+            {"pkg": "./c15", "harness": "Harness_strings", "maporder": True,
+             "params": {"quick": {"depth": 0, "strlen": 3, "stringsonly": 1, "templates": 1}, "thorough": {"depth": 0, "strlen": 3, "stringsonly": 1, "templates": 2}}, "wall": {"quick": "100s", "thorough": "40m"}},
+        ],
+    },
 }
